@@ -35,6 +35,7 @@ def plan(tier, seed):
     for i in range(4 if tier == "quick" else 16):
         shards.append({"kind": "misc", "part": i, "parts": 4 if tier == "quick" else 16, "tier": tier, "_name": f"misc-{i}"})
     shards.append({"kind": "contracts", "tier": tier, "_name": "contracts"})
+    shards.append({"kind": "custom_country", "tier": tier, "_name": "custom-country"})
     for i in range(3 if tier == "quick" else 24):
         shards.append({"kind": "cold", "part": i, "tier": tier, "_name": f"cold-{i}"})
     return shards
@@ -220,8 +221,33 @@ def run_shard(shard, out_base):
         run_cold(shard, mon)
         return mon.result(out_base)
     judge.lib()
+    if shard["kind"] == "custom_country":
+        run_custom_country(shard, mon)
+        return mon.result(out_base)
     (run_iban if shard["kind"] == "iban" else run_misc)(shard, mon)
     return mon.result(out_base)
+
+
+def run_custom_country(shard, mon):
+    """'Unknown country' means unknown to the ISO 3166 database the library consults *when it is asked*: an
+    application that registers a user-assigned code through pycountry's documented add_entry (XK: SWIFT issues
+    such BICs) after BICs have already been validated gets BICs of that country accepted from then on."""
+    import pycountry  # noqa: PLC0415
+
+    texts = ["NLPRXKPR", "NLPRXKPRXXX", "1234XKPR", "NLPRXQPR", "DEUTDEFF", "NLPRXKP"]
+    for t in ["DEUTDEFF", "DEUTDEFF500", "NLPRXKPR", "ABCDXQ12"]:
+        for strict in (False, True):
+            judge.judge_bic(mon, t, strict, "before_custom_country", "total")
+    if "XK" in data.iso3166_alpha2() or not hasattr(pycountry.countries, "add_entry"):
+        mon.tally("custom_country_not_applicable")
+        return
+    pycountry.countries.add_entry(alpha_2="XK", alpha_3="XXK", name="Kosovo", numeric="926")
+    data._cache["iso"] = set(data.iso3166_alpha2()) | {"XK"}
+    mon.tally("custom_country_registered")
+    for t in texts:
+        for strict in (False, True):
+            judge.judge_bic(mon, t, strict, "after_custom_country", "total")
+            judge.judge_bic(mon, t, strict, "after_custom_country", "accept")
 
 
 def finish(m, tier, seed):
